@@ -10,13 +10,14 @@ open Juniper.Gen.Watch (AssertForm)
 def MapCfg.std : MapCfg :=
   { loadAssert := .commaOk, loadGuard := true, ladAssert := .commaOk, ladGuard := true,
     losAssert := .commaOk, losGuard := false, swapAssert := .commaOk, swapGuard := false,
-    rangeV := .commaOk, rangeK := .commaOk, forwards := true }
+    rangeBody := [.assertKey .commaOk, .assertVal .commaOk, .retCallback], forwards := true }
 
-/-- Tie 1: the regenerated facts about `xsync.Map` are the ones the proofs are about. -/
-theorem mapcfg_gen : MapCfg.gen = MapCfg.std := by decide
-
-/-- Tie 1 for Watchable / Future / Lazy. -/
-theorem wcfg_gen : WCfg.gen = WCfg.std := by decide
+/-!
+Tie 1 (the regenerated facts are the ones the proofs are about) is discharged INSIDE every property
+theorem of `Props/C18.lean` (`have hgen : MapCfg.gen = MapCfg.std := by decide`, likewise `WCfg`,
+`FCfg`, `lazyOnceGen`), so that a changed fact breaks the property theorems themselves; the lemmas
+of this file are about the `std` configurations.
+-/
 
 section Typed
 set_option linter.unusedSectionVars false
@@ -35,15 +36,28 @@ theorem loadAndDelete_absent (m : SMap UK UV) (k : Any UK) :
     (m.loadAndDelete k).2.2 = false → (m.loadAndDelete k).2.1 = none := by
   unfold SMap.loadAndDelete; split <;> simp
 
-theorem tRangeAux_commaOk (kk : Kind K UK) (vk : Kind V UV) (l : List (Any UK × Any UV)) :
-    tRangeAux MapCfg.std kk vk l = .ok (l.map (fun p => (kk.ofAny p.1, vk.ofAny p.2))) := by
+/-- `sync.Map.Range` over a closure without effects of its own is `visitWhile` -/
+theorem rangeG_pure {α : Type} (g : Any UK → Any UV → Bool) (h : Any UK → Any UV → α) (l : List (Any UK × Any UV)) :
+    rangeG (fun k v => .ok ([h k v], g k v)) l = .ok ((visitWhile g l).map (fun p => h p.1 p.2)) := by
   induction l with
   | nil => rfl
   | cons p rest ih =>
-    obtain ⟨k, v⟩ := p
-    have hk : MapCfg.std.rangeK = .commaOk := rfl
-    have hv : MapCfg.std.rangeV = .commaOk := rfl
-    simp only [tRangeAux, hk, hv, assertT, ih, Out.map, List.map_cons]
+    simp only [rangeG, visitWhile]
+    cases hg : g p.1 p.2
+    · simp
+    · simp [ih, Out.map]
+
+/-- one invocation of today's closure: assert key and value (comma-ok), `return f(key, value)` -/
+theorem closureRun_std (kk : Kind K UK) (vk : Kind V UV) (f : K → V → Bool) (k : Any UK) (v : Any UV) :
+    closureRun kk vk f k v MapCfg.std.rangeBody {} = .ok ([(kk.ofAny k, vk.ofAny v)], f (kk.ofAny k) (vk.ofAny v)) := by
+  simp [MapCfg.std, closureRun, assertT]
+
+theorem tRange_std (kk : Kind K UK) (vk : Kind V UV) (m : SMap UK UV) (f : K → V → Bool) :
+    tRange MapCfg.std kk vk m f =
+      .ok ((m.rangeWith (fun k v => f (kk.ofAny k) (vk.ofAny v))).map (fun p => (kk.ofAny p.1, vk.ofAny p.2))) := by
+  unfold tRange SMap.rangeWith
+  simp only [closureRun_std]
+  exact rangeG_pure (fun k v => f (kk.ofAny k) (vk.ofAny v)) (fun k v => (kk.ofAny k, vk.ofAny v)) m.range
 
 end Typed
 
@@ -104,7 +118,7 @@ def casState (s : WState) (j : Nat) : WState :=
 theorem wstep_cas {s s' : WState} {j : Nat} (h : wstep WCfg.std s (.cas j) = some s') :
     s.readers[j]? = some .sawNil ∧
       ((s.ptr = none ∧ s' = casState s j) ∨ (∃ c, s.ptr = some c ∧ s' = setReader s j .casFailed)) := by
-  simp only [wstep] at h
+  simp only [wstep, WCfg.std, if_true] at h
   split at h
   · rename_i hr
     refine ⟨hr, ?_⟩
@@ -485,11 +499,11 @@ theorem finv_setWaiter {v : Int} {s : FState} {j : Nat} {w : FWaiter} {pc : Wait
     · exact hI.doneErr k w' h hp
     · exact h3 hp
 
-theorem finv_step {v : Int} {s s' : FState} {l : FLabel} (hI : FutInv v s) (h : fstep WCfg.std s l = some s') :
+theorem finv_step {v : Int} {s s' : FState} {l : FLabel} (hI : FutInv v s) (h : fstep FCfg.std s l = some s') :
     FutInv v s' := by
   cases l with
   | fill1 i =>
-    simp only [fstep, WCfg.std, if_true] at h
+    simp only [fstep, FCfg.std, if_true] at h
     split at h
     · rename_i v' hv'
       have := filler_val hI.vals hv'
@@ -594,7 +608,7 @@ theorem finv_step {v : Int} {s s' : FState} {l : FLabel} (hI : FutInv v s) (h : 
           exact ⟨hctx ▸ this.1, hcan this.2⟩
     · cases h
 
-theorem fstep_fvals {cfg : WCfg} {s s' : FState} {l : FLabel} (h : fstep cfg s l = some s') : fvals s' = fvals s := by
+theorem fstep_fvals {cfg : FCfg} {s s' : FState} {l : FLabel} (h : fstep cfg s l = some s') : fvals s' = fvals s := by
   cases l <;> simp only [fstep] at h
   case fill1 i =>
     split at h
@@ -620,7 +634,7 @@ theorem fstep_fvals {cfg : WCfg} {s s' : FState} {l : FLabel} (h : fstep cfg s l
     · split at h <;> first | cases h; rfl | cases h
     · cases h
 
-theorem finv_reach {v : Int} {s : FState} (h : FReach WCfg.std s) (hv : fvals s = [v]) : FutInv v s := by
+theorem finv_reach {v : Int} {s : FState} (h : FReach FCfg.std s) (hv : fvals s = [v]) : FutInv v s := by
   induction h with
   | init vals ws =>
     have : vals = [v] := by
@@ -645,10 +659,10 @@ theorem linv_init (n : Nat) : LazyInv (linit n) := by
   simp only [linit, List.getElem?_replicate] at h
   split at h <;> cases h; rfl
 
-theorem linv_step {s s' : LState} {l : LLabel} (hI : LazyInv s) (h : lstep s l = some s') : LazyInv s' := by
+theorem linv_step {s s' : LState} {l : LLabel} (hI : LazyInv s) (h : lstep true s l = some s') : LazyInv s' := by
   cases l with
   | enter j =>
-    simp only [lstep] at h
+    simp only [lstep, Bool.not_true, Bool.false_eq_true, if_false] at h
     split at h
     · rename_i hj
       split at h
@@ -762,7 +776,7 @@ theorem linv_step {s s' : LState} {l : LLabel} (hI : LazyInv s) (h : lstep s l =
         · exact hnf k hk
     · cases h
 
-theorem linv_reach {s : LState} (h : LReach s) : LazyInv s := by
+theorem linv_reach {s : LState} (h : LReach true s) : LazyInv s := by
   induction h with
   | init n => exact linv_init n
   | step l _ hs ih => exact linv_step ih hs
